@@ -7,6 +7,9 @@ from .harness import Built, Obs, simulate, simulate_same, HarnessError
 from .nir2smt import Unsupported
 
 
+CVC5_EVERY = 20
+
+
 def bvval(m, term):
     v = m.eval(term, model_completion=True)
     if z3.is_bv_value(v):
@@ -144,6 +147,30 @@ def cosim(built, K, seed, extra_watch=()):
     return len(enc) * len(watch), mism
 
 
+def cvc5_verdict(solver, timeout_ms=60000):
+    """Second opinion: the same assertions decided by cvc5 (SMT-LIB2 dump of the z3 solver). None if cvc5 is unavailable."""
+    try:
+        import cvc5
+        from cvc5 import InputParser, SymbolManager
+    except Exception:
+        return None
+    txt = "(set-logic QF_BV)\n" + solver.to_smt2()
+    slv = cvc5.Solver()
+    slv.setOption("tlimit-per", str(timeout_ms))
+    sm = SymbolManager(slv.getTermManager()) if hasattr(slv, "getTermManager") else SymbolManager(slv)
+    p = InputParser(slv, sm)
+    p.setStringInput(cvc5.InputLanguage.SMT_LIB_2_6, txt, "q")
+    res = None
+    while True:
+        cmd = p.nextCommand()
+        if cmd.isNull():
+            break
+        out = cmd.invoke(slv, sm).strip()
+        if out in ("sat", "unsat", "unknown"):
+            res = out
+    return res
+
+
 class Ctx:
     """Collects queries / violations / errors of one configuration (runs inside a worker process)."""
 
@@ -200,6 +227,20 @@ class Ctx:
         dt = time.time() - t
         self.solver_time += dt
         self._record(name, "obligation", r, dt)
+        self._nobl = getattr(self, "_nobl", 0) + 1
+        if self.tier == "thorough" and logic == "QF_BV" and r in ("sat", "unsat") and self._nobl % CVC5_EVERY == 1 and dt < 20:
+            # "diff two solvers": a sample of the thorough tier's queries is re-decided by cvc5
+            try:
+                r2 = cvc5_verdict(s)
+            except Exception as e:  # noqa
+                r2 = None
+                self.notes["cvc5_errors"] = self.notes.get("cvc5_errors", 0) + 1
+            if r2 in ("sat", "unsat"):
+                self.notes["cvc5_cross_checked"] = self.notes.get("cvc5_cross_checked", 0) + 1
+                if r2 != r:
+                    self.notes["cvc5_disagreements"] = self.notes.get("cvc5_disagreements", 0) + 1
+                    self.errors.append(f"solver disagreement on '{name}': z3 says {r}, cvc5 says {r2} (cfg {self.cfg})")
+                    return None
         if r == "unsat":
             return True
         if r != "sat":
